@@ -168,8 +168,10 @@ fn normalize(m: Vec<M>) -> Vec<M> {
 }
 
 fn build_start<'a>(name: &'a str, pre: Option<&[(String, String)]>, edits: &'a [Edit]) -> BytesStart<'static> {
-    let mut s: BytesStart<'static> = match pre {
-        None => BytesStart::new(name.to_string()),
+    // the start tag is built either on an owned buffer or -- as an event that comes from a reader
+    // does -- borrowing its content; the edits then run on the borrowed event first
+    let content: String = match pre {
+        None => name.to_string(),
         Some(attrs) => {
             let mut c = name.to_string();
             for (i, (k, v)) in attrs.iter().enumerate() {
@@ -187,8 +189,15 @@ fn build_start<'a>(name: &'a str, pre: Option<&[(String, String)]>, edits: &'a [
                     c.push('\'');
                 }
             }
-            BytesStart::from_content(c, name.len())
+            c
         }
+    };
+    let borrowed = (content.len() + edits.len()) % 2 == 0;
+    let mut s: BytesStart = match (borrowed, pre.is_some()) {
+        (true, false) => BytesStart::new(content.as_str()),
+        (true, true) => BytesStart::from_content(content.as_str(), name.len()),
+        (false, false) => BytesStart::new(content.clone()),
+        (false, true) => BytesStart::from_content(content.clone(), name.len()),
     };
     for e in edits {
         match e {
@@ -219,7 +228,7 @@ fn build_start<'a>(name: &'a str, pre: Option<&[(String, String)]>, edits: &'a [
             }
         }
     }
-    s
+    s.into_owned()
 }
 
 /// Flatten calls into plain events (paths 1 and 2).
